@@ -194,7 +194,8 @@ def basis_config(cfg, collect=None):
     if idx % 37 == 0:
         t.sample({"part": "basis", "l": l, "r": r, "br": br, "Ndat": Nd, "method": method,
                   "sign": "s-t=+lag" if plus else "s-t=-lag", "impulse_pairs": int(l * r * Nd * Nd),
-                  "products_per_entry(first row)": cnt_e[0].tolist(), "weight(first row)": wmax[0].tolist()})
+                  "products_averaged_per_entry(block row 0, one per block column)": cnt_e[0, ::r].tolist(),
+                  "weight(block row 0, one per block column)": wmax[0, ::r].tolist()})
     return t
 
 
